@@ -325,6 +325,9 @@ static struct ubuf *i_ubuf_alloc(struct ubuf_mgr *mgr, uint32_t sig, va_list arg
     if (b) tab_add(&t_ubuf, b, true);
     return b;
 }
+/* (a duplicate that is built and thrown away INSIDE one refused dup / splice was never announced: its release
+ * on the error path is not an event either) */
+static int in_ubuf_ctl;
 static int i_ubuf_control(struct ubuf *ubuf, int cmd, va_list args)
 {
     struct ubuf **pp = NULL;
@@ -335,7 +338,9 @@ static int i_ubuf_control(struct ubuf *ubuf, int cmd, va_list args)
         va_end(c);
         pool_open(&t_ubuf);
     }
+    in_ubuf_ctl++;
     int err = o_ubuf_control(ubuf, cmd, args);
+    in_ubuf_ctl--;
     if (pp) {
         struct ubuf *n = ubase_check(err) ? *pp : NULL;
         pool_close(&t_ubuf, n);
@@ -345,7 +350,7 @@ static int i_ubuf_control(struct ubuf *ubuf, int cmd, va_list args)
 }
 static void i_ubuf_free(struct ubuf *b)
 {
-    tab_del(&t_ubuf, b, true);
+    tab_del(&t_ubuf, b, !(in_ubuf_ctl > 0 && tab_id(&t_ubuf, b) < 0));
     o_ubuf_free(b);
     pool_rest(&t_ubuf, b);
 }
